@@ -84,15 +84,11 @@ def shards(tier, seed):
     q = tier == "quick"
     out = []
     for i, nit in enumerate(("float", "float", "decimal", "fraction") if q else
-                            ("float", "float", "float", "decimal", "decimal", "fraction", "fraction")):
-        out.append({"kind": "rt", "name": f"rt-{nit}{i}", "nit": nit, "n": 700 if q else 9000,
+                            ("float", "float", "decimal", "fraction", "fraction")):
+        out.append({"kind": "rt", "name": f"rt-{nit}{i}", "nit": nit, "n": 700 if q else 12000,
                     "part": i})
     out.append({"kind": "rtx", "name": "rt-xreg", "n": 500 if q else 8000})
-    if q:
-        out.append({"kind": "misc", "name": "containers+exceptions", "n": 1500, "n_exc": 12})
-    else:
-        out.append({"kind": "containers", "name": "containers", "n": 40000})
-        out.append({"kind": "exceptions", "name": "exceptions", "n_exc": 150})
+    out.append({"kind": "misc", "name": "containers+exceptions", "n": 1500 if q else 40000, "n_exc": 12 if q else 150})
     modes = ("lazy", "set-float", "set-decimal", "set-fraction", "set-lazy")
     for i, mode in enumerate(modes[:4] if q else modes):
         out.append({"kind": "subproc", "name": f"subproc-{mode}", "app": mode,
@@ -100,11 +96,11 @@ def shards(tier, seed):
                     "batches": 1 if q else 8, "size": 400 if q else 1200})
     for i, pair in enumerate(("fresh/fresh", "fresh/deepcopy", "application/lazy", "deepcopy/deepcopy")):
         out.append({"kind": "cross", "name": f"cross-{pair}", "pair": pair, "n": 1700 if q else 30000})
-    for i in range(5 if q else 6):
-        out.append({"kind": "evolve", "name": f"evolve{i}", "part": i, "parts": 5 if q else 6,
-                    "random": 1 if q else 50})
     for i in range(5):
-        out.append({"kind": "lazy", "name": f"lazy{i}", "part": i, "parts": 5})
+        out.append({"kind": "evolve", "name": f"evolve{i}", "part": i, "parts": 5, "random": 1 if q else 60})
+    nl = 5 if q else 3
+    for i in range(nl):
+        out.append({"kind": "lazy", "name": f"lazy{i}", "part": i, "parts": nl})
     return out
 
 
@@ -765,6 +761,13 @@ def approx(a, b, tol=1e-9):
     return a == b
 
 
+def same_dims(a, b, tol=1e-9):
+    """Dimension vectors as [[name, exp], ...]; a missing name is exponent 0 (float registries
+    leave 1e-16 residues when Fraction exponents are summed in floating point)."""
+    da, db = dict(map(tuple, a)), dict(map(tuple, b))
+    return all(abs(da.get(k, 0.0) - db.get(k, 0.0)) <= tol for k in set(da) | set(db))
+
+
 def run_subproc(spec, rec, rng, pools, pint, pintload, CH):
     nit, mode = spec["nit"], spec["app"]
     app_nit = {"lazy": "float", "set-float": "float", "set-decimal": "decimal", "set-fraction": "fraction",
@@ -819,7 +822,7 @@ def run_subproc(spec, rec, rng, pools, pint, pintload, CH):
             if "ERR" in c and "ERR" not in a:
                 rec.violation("unpickled-object-unusable", dict(w, child=c, parent=a), **f)
             elif "ERR" not in a and "ERR" not in c:
-                if not approx(a["dim"], c["dim"]):
+                if not same_dims(a["dim"], c["dim"]):
                     rec.violation("unpickled-object-differs", dict(w, child=c, parent=a), aspect="dimensionality", **f)
                 elif app_nit == nit and a["root"][0] != "ERR" and c["root"][0] != "ERR":
                     rec.count("subproc_root_values_compared")
